@@ -9,6 +9,7 @@ mod ops_index;
 mod ops_axis;
 mod ops_broadcast;
 mod ops_elem;
+mod ops_reduce;
 
 use common::*;
 use std::io::{BufRead, Write};
@@ -17,6 +18,7 @@ fn dispatch(op: &str, ty: &str, args: &[Arg]) -> String {
     if let Some(r) = ops_index::dispatch(op, ty, args) { return r; }
     if let Some(r) = ops_axis::dispatch(op, ty, args) { return r; }
     if let Some(r) = ops_broadcast::dispatch(op, ty, args) { return r; }
+    if let Some(r) = ops_reduce::dispatch(op, ty, args) { return r; }
     if let Some(r) = ops_elem::dispatch(op, ty, args) { return r; }
     "bad".to_string()
 }
